@@ -19,10 +19,15 @@ def check(pid, category, text, note, technique, design_ref):
         "technique": technique,
     }
 
-exec(open(os.path.join(V, "tools", "manifest_checks.py")).read())
-
 PENDING = {}
-exec(open(os.path.join(V, "tools", "manifest_pending.py")).read())
+def not_claimed(pid, reason):
+    PENDING[pid] = reason
+
+# one fragment per property: tools/manifest.d/Cxx.py calls check(...) or not_claimed(...)
+frag_dir = os.path.join(V, "tools", "manifest.d")
+for name in sorted(os.listdir(frag_dir)):
+    if name.endswith(".py"):
+        exec(open(os.path.join(frag_dir, name)).read())
 
 manifest = {
     "version": 1,
